@@ -1029,3 +1029,5 @@ F("U24", "C12", NS, "    for j in range(r - 1, -1, -1):\n      prob_dependent", 
 F("U25", "C12", NS, "  return res[-k:][::-1] + [sum(res[:-k])]", "  return res[-k:] + [sum(res[:-k])]", "R-C12-RANKDP", "classes in ascending rank")
 F("U26", "C12", NS, "  for _ in range(c):\n    for j in range(r - 1", "  for _ in range(r):\n    for j in range(r - 1", "R-C12-RANKDP", "one step per row instead of per column")
 T("U27", "C12", NS, _RD, "      p_in = 2**(j - r)\n      cur = res[j]\n      res[j] = cur * p_in\n      res[j + 1] = res[j + 1] + cur * (1 - p_in)", "old value through a temporary, lower rank first")
+F("U28", "C13", TS, "    if isinstance(test_result, float) or isinstance(test_result, int):", "    if isinstance(test_result, float) and isinstance(test_result, int):", "R-C13-STATE", "a bare float is no longer wrapped (TypeError in the merge loop)")
+T("U29", "C13", TS, "    if isinstance(test_result, float) or isinstance(test_result, int):", "    if isinstance(test_result, (float, int)):", "one isinstance with a tuple")
